@@ -148,6 +148,61 @@ def dec_streams(tier):
     return out
 
 
+SYN_SEQ = {'short': [0], 'long': [1], 'short_long': [0, 1], 'long_short': [1, 0], 'long_long': [1, 1], 'short_short_long_long_short': [0, 0, 1, 1, 0]}
+
+
+def synth_files():
+    """Links written bit by bit from the specification (pylib/vspec, vsynth): floor type 0 (never produced by the encoder) and floor type 1
+    set-ups with distinct short / long modes (64 / 128), mono and coupled stereo, whose audio packets are exactly a chosen block-size sequence.
+    Returns list of (name, path, floortype, ch, seqname, npackets)."""
+    import vspec, vsynth
+    out = []
+    for ft in (0, 1):
+        for ch in (1, 2):
+            s = vsynth.base_setup(channels=ch, bs0=64, bs1=128, rate=8000, floortype=ft, restype=(2 if ch == 2 else 1), coupling=[(0, 1)] if ch == 2 else [])
+            for sq, modes in SYN_SEQ.items():
+                name = f'c13_syn_f{ft}_c{ch}_{sq}'
+                fl = vsynth.flags_for(s, modes)
+                f = vsynth.Filler(fixed={'f1.nonzero': 1, 'f0.amp': lambda c, d: 1 + (c if isinstance(c, int) else 0) % 4}, a=7, b=3)
+                pk = [vsynth.make_packet(s, m, f, pv, nx) for m, (pv, nx) in zip(modes, fl)]
+                grans, total, prev = [], 0, None
+                for m in modes:
+                    n = s.blocksize(s.modes[m].blockflag)
+                    if prev is not None:
+                        total += prev // 4 + n // 4
+                    prev = n
+                    grans.append(total)
+                hs = vspec.headers(s, comments=[b'TITLE=' + name.encode()])
+
+                def lace(b):
+                    l, n = [], len(b)
+                    while n >= 255:
+                        l.append(255)
+                        n -= 255
+                    l.append(n)
+                    return l
+                serial = 700 + ft * 10 + ch
+                pages = [vlib.Page(2, 0, serial, 0, lace(hs[0]), hs[0]), vlib.Page(0, 0, serial, 1, lace(hs[1]) + lace(hs[2]), hs[1] + hs[2])]
+                pages += vlib.pages_from_packets(pk, serial, grans, 1, bos=False, eos=True, seq0=2)
+                blob = b''.join(x.encode() for x in pages)
+                path = vlib.write_file(name + '.ogg', blob)
+                out.append((name, path, ft, ch, sq, len(pk), {'bytes': len(blob), 'links': [{'n': total, 'rate': 8000, 'bytes': len(blob)}]}))
+    return out
+
+
+def dec_synth_cases(syn):
+    """packet-level decoder on the synthesised set-ups: headers, vorbis_synthesis_init + vorbis_block_init, then exactly
+    {no packet, short only, long only, short+long, long+short, long+long, a longer mix} decoded before the clear calls."""
+    cs = []
+    for name, path, ft, ch, sq, npk, meta in syn:
+        decs = [npk] + ([0, -1] if sq == 'short' else [])
+        for dec in decs:
+            for cl in (0, 1):
+                cs.append((f'd {path} N {dec} {cl}', {'space': 'dec', 'flav': 'asan', 'sub': 'synth', 'stream': name, 'mut': 'N', 'dec': dec, 'cl': cl,
+                                                      'syn': f'floor{ft}:ch{ch}:' + (sq if dec == npk else 'none')}))
+    return cs
+
+
 def dec_cases(tier, streams):
     cs = []
 
@@ -181,11 +236,11 @@ def dec_cases(tier, streams):
 def judge_dec(m, r, k):
     mk = m['mut'][0] + (m['mut'][1] if m['mut'][0] in 'PF' else '')
     out = f"hr={k['hr']}:acc={k['acc']}:si={k['si']}:dn={'+' if int(k['dn']) > 0 else '0'}"
-    cls = ('dec', mk, 'dec%d' % m['dec'], out, 'cl%d' % m['cl'])
+    cls = ('dec', mk, 'dec%d' % m['dec'], out, 'cl%d' % m['cl']) + ((m['syn'],) if 'syn' in m else ())
     lb, ln, mid = int(k['leakB']), int(k['leakN']), int(k['mid'])
     if lb or ln or mid:
         what = 'headers_accepted' if k['acc'] == '111' else 'header_refused'
-        key = f"dec_leak:{what}:{mk}:hr={k['hr']}:si={k['si']}:sizes={k['live']}"
+        key = f"dec_leak:{what}:{mk}:hr={k['hr']}:si={k['si']}:sizes={k['live']}" + (f":synth={m['syn']}" if 'syn' in m else '')
         return 'viol', key, f"decoder path {m['stream']} {m['mut']} dec={m['dec']}: {lb} bytes in {ln} blocks live after the clear calls (after first round {mid}); {r[:300]}", cls
     return 'ok', None, None, cls
 
@@ -233,9 +288,37 @@ def mkfiles(tier):
     nv['bosonly'] = pg0[0].encode()
     nv['vorbis_then_other'] = d0 + nv['oggother']
     nv['other_then_vorbis'] = nv['oggother'] + d1
+    # two BOS pages with the SAME serial number inside one link's initial BOS group (rejected as an invalid stream by _fetch_headers):
+    # at the start of the file (-> OV_EBADHEADER from the first open stage) and at the start of a later link of a chain
+    # (-> failure of the bisection in the second stage of a seekable open); before and after the Vorbis BOS page, and three in a row
+    junk = fpage(907, 0, 2, b'fishead\0' + bytes(56))
+    junk_b = fpage(907, 0, 2, b'fisbone\0' + bytes(40))
+    pg1 = vlib.parse_pages(d1)
+    nv['dupbos_first'] = junk + junk + d0
+    nv['dupbos_first_distinct_bodies'] = junk + junk_b + d0
+    nv['dupbos_first_after_vorbis_bos'] = pg0[0].encode() + junk + junk + b''.join(p.encode() for p in pg0[1:])
+    nv['dupbos_first_triple'] = junk + junk + junk + d0
+    nv['dupbos_link2'] = d0 + junk + junk + d1
+    nv['dupbos_link2_after_vorbis_bos'] = d0 + pg1[0].encode() + junk + junk + b''.join(p.encode() for p in pg1[1:])
+    nv['dupbos_link2_only'] = d0 + junk + junk
+    nv['dupbos_link3'] = d0 + d1 + junk + junk + open(l2[0], 'rb').read()
+    # control: the same foreign BOS once (legal multiplex) in the same places
+    nv['muxbos_link2'] = d0 + junk + d1 + fpage(907, 1, 4, b'end', 9)
     for name, data in nv.items():
         p = vlib.write_file('c13_nv_' + name + '.bin', data)
         F['nv_' + name] = (p, {'bytes': len(data), 'links': []})
+    # synthesised floor-0 / floor-1 links (exact block-size sequences), also chained so that the decoder is torn down at a link boundary
+    for name, path, ft, ch, sq, npk, meta in synth_files():
+        F['syn_' + name[8:]] = (path, meta)
+    for ft in (0, 1):
+        a = open(F[f'syn_f{ft}_c1_long'][0], 'rb').read()
+        b = open(F[f'syn_f{ft}_c1_long_long'][0], 'rb').read()
+        pb = vlib.parse_pages(b)
+        for q in pb:
+            q.serial += 50
+        b = b''.join(q.encode() for q in pb)
+        p = vlib.write_file(f'c13_syn_f{ft}_chain_long_longlong.ogg', a + b + d0)
+        F[f'syn_f{ft}_chain'] = (p, {'bytes': len(a + b + d0), 'links': []})
     # every page x 14 Ogg-level mutation operators (one deviation) on the 2-link and the 3-link chain
     for fname in ('chain2', 'chain3'):
         pages = vlib.parse_pages(open(F[fname][0], 'rb').read())
@@ -381,6 +464,12 @@ def vf_static_cases(tier, F):
             for mode, api in (('s', 'o'), ('s', 't'), ('n', 'o'), ('s', 'T')):
                 for o in ('-', 'R'):
                     cs.append(vf_case(F[fname][0], f'G{g}', mode, api, '-', o, {'file': fname, 'sub': 'garbage'}))
+    # synthesised floor-0 / floor-1 links through vorbisfile: open, 0 / 1 read / read-through / a seek, ov_clear twice
+    for fname in F:
+        if fname.startswith('syn_'):
+            for mode, api in (('s', 'o'), ('s', 't'), ('n', 'o')):
+                for o in (('-', 'r', 'R', 'r+ps:0+r', 'ps:40+R') if mode == 's' else ('-', 'r', 'R')):
+                    cs.append(vf_case(F[fname][0], '-', mode, api, '-', o, {'file': fname, 'sub': 'synth'}))
     # Ogg-level page mutations
     for fname in F:
         if fname.startswith('pm_'):
@@ -451,7 +540,7 @@ def judge_vf(m, r, k):
         parts = m['dev'].split(';')
         devk = '+'.join(p.split(':')[1] + ('p' if p.split(':')[2] == '1' else '1') for p in parts) + ('@' + m.get('phase', '?')) + ('!' if int(k['hits']) > 0 else '?')
     opk = re.sub(r':-?\d+', '', m['ops'])
-    cls = ('vf', m['sub'], m['mode'] + m['api'], (m['file'].rsplit('_', 1)[1] if m['sub'] == 'pagemut' else 'E') if m['edit'] == '-' else m['edit'][0], devk, 'open=' + opn, opk + '=' + opsrc)
+    cls = ('vf', m['sub'], m['mode'] + m['api'], (m['file'].rsplit('_', 1)[1] if m['sub'] == 'pagemut' else m['file'] if m['sub'] == 'synth' else 'E') if m['edit'] == '-' else m['edit'][0], devk, 'open=' + opn, opk + '=' + opsrc)
     lb, ln, mid = int(k['leakB']), int(k['leakN']), int(k['mid'])
     what = f"file {m['file']} edit {m['edit']} mode {m['mode']} api {m['api']} faults {m['dev']} ops {m['ops']}"
     open_ok = k['ok'] == '1'
@@ -686,6 +775,10 @@ def run(tier):
     if 'dec' in only:
         t = time.time()
         streams = dec_streams(tier)
+        syn = synth_files()
+        rs = R.execute(dec_synth_cases(syn), 8, 'c13s')
+        R.stats['synth_dec_decoded'] = sum(1 for m, r, k in rs if k is not None and int(k['dn']) > 0 and int(k['dn']) == m['dec'])
+        R.stats['synth_dec_floor0_long_only'] = sum(1 for m, r, k in rs if k is not None and m['syn'].startswith('floor0') and m['syn'].endswith(':long') and int(k['dn']) == 1)
         res = R.execute(dec_cases(tier, streams), 3 if tier == 'quick' else 8, 'c13d')
         # second pass: flipped headers that all three were accepted -> also stop before / right after synthesis_init
         again = []
@@ -723,7 +816,7 @@ def run(tier):
                 '(harness buffers from __real_malloc). (enc) channels x rates (one inside every template band + band edges) x quality steps, VBR one-step / two-step (+ every state-changing encoder ctl) and '
                 'managed one-step / two-step, rejected tuples, stopped after each of setup / ctl / setup_init / analysis_init / headerout / block_init / 0,1,5 analysed blocks / drained end of stream; '
                 '(dec) for several encoder-made streams every byte prefix of each header, every single-bit flip of id+comment headers and of the whole setup header (smallest stream; all in thorough), all header/audio sequences of length <=3, '
-                'then synthesis_init + block_init + 0/1/3 packets when accepted; (vf) every truncation length and single-page drop of a 2-link chain, garbage prefixes, non-Vorbis streams, seekable / streaming, '
+                'then synthesis_init + block_init + 0/1/3 packets when accepted; plus specification-level synthesised floor-0 and floor-1 set-ups (mono / coupled stereo, distinct 64/128 blocks) decoding exactly {no packet, short, long, short+long, long+short, long+long, a longer mix} before the clear calls (the same files and a chain of them also through vorbisfile); (vf) every truncation length and single-page drop of a 2-link chain, garbage prefixes, non-Vorbis streams, duplicate-serial BOS pages in the initial BOS group of the first / a later link, seekable / streaming, '
                 'ov_open_callbacks / ov_test_callbacks(+ov_test_open), 0/1 operations (reads, every seek kind at in-range / boundary / out-of-range targets), and every applicable single callback fault '
                 '(zero read, read error, seek failure, tell failure; one-shot and persisting) at every environment point of open, read-through and of one seek per seek kind (pairs of one-shot faults in thorough). '
                 'oracle: live bytes and blocks == 0 after the clear calls (also after the first round), no double/invalid free (ASan for dec/vf and the < 40 kHz encoder grid, glibc heap checks elsewhere), '
@@ -746,6 +839,8 @@ def run(tier):
         chk.guard(cut or st['rja'] > 0, 'some header was refused half-way after it had allocated')
         chk.guard(cut or st['dec_accepted_then_init_failed'] > 0 or tier == 'quick' and st['rja'] > 0, 'some corrupted setup header was accepted and then failed / passed vorbis_synthesis_init')
         chk.guard(cut or kinds.get('dec', 0) >= 10, 'decoder classes')
+        chk.guard(cut or st.get('synth_dec_floor0_long_only', 0) >= 4, 'a floor-0 decoder that decoded only a long block was cleared (every synthesised packet of that scenario was accepted by vorbis_synthesis)')
+        chk.guard(cut or st.get('synth_dec_decoded', 0) >= 40, 'the synthesised floor-0 / floor-1 packets were decoded, not rejected')
     if 'vf' in only:
         chk.guard(cut or st['open_failed_after_alloc'] > 0, 'some open failed after allocating')
         chk.guard(cut or st['open_failed_second_stage'] > 0, 'some ov_test_open failed after ov_test_callbacks had succeeded')
@@ -769,6 +864,7 @@ def replay(path):
         mkfiles('quick')
     elif rp['case'].startswith('d '):
         dec_streams('quick')
+        synth_files()
     case = rp['case']
     tk = case.split(' ')
     if tk[0] in ('v', 'd'):
